@@ -1,3 +1,3 @@
 From Coq Require Import ExtrOcamlBasic.
 From OBB Require Import Model.Codec.
-Extraction "model.ml" w_c16_enc w_c16_dec.
+Extraction "model.ml" w_c16_enc w_c16_dec w_c16_wf.
